@@ -265,7 +265,8 @@ theorem le_handleWriteHeader (a : Acc) (h : ObjHdr) : Le a (handleWriteHeader a 
 
 theorem le_handleWrite (a : Acc) (seq : Nat) (hs : List ObjHdr) : Le a (handleWrite a seq hs).1 := by
   unfold handleWrite
-  exact le_foldl _ (fun p : Acc × Nat => p.1) (fun p h => le_handleWriteHeader p.1 h) hs (a, 0)
+  exact le_foldl (fun (p : Acc × Nat) h => let (a', i) := handleWriteHeader p.1 h; (a', p.2 ||| i))
+    (fun p : Acc × Nat => p.1) (fun p h => le_handleWriteHeader p.1 h) hs (a, 0)
 
 theorem le_handleFreezeHeader (a : Acc) (k : FreezeKind) (h : ObjHdr) : Le a (handleFreezeHeader a k h).1 := by
   unfold handleFreezeHeader
@@ -690,7 +691,7 @@ theorem le_afterUnsolSeries (a : Acc) (isNull confirmed : Bool) : Le a (afterUns
   · exact .of_st (.of_eq rfl rfl rfl rfl)
   · split
     · exact (le_clearWrittenEvents a).trans (.of_st (.of_eq rfl rfl rfl rfl))
-    · exact .of_st (.of_eq rfl rfl rfl rfl)
+    · exact .of_st ⟨rfl, .reset _ .refl, fun _ h => h, fun h => h⟩
 
 /-- result of `handleDeferredRead` -/
 def HDSpec (a : Acc) (res : Option (Acc ⊕ Acc)) : Prop :=
@@ -1020,12 +1021,15 @@ theorem good_solWaitOnFragment {a : Acc} (h : Inv cfg0 db0 D A a) (series : Seri
           | some p =>
             obtain ⟨a7, r7⟩ := p
             have h7 := h6.le (le_writeSolicited hw)
+            have h8 : Inv cfg0 db0 D A
+                ({ a7.1 with lastReq := a7.1.lastReq.map (fun lr => { lr with response := some r7 }) }, a7.2) :=
+              h7.le (.of_st (.of_eq rfl rfl rfl rfl))
             dsimp -zeta only
             cases next with
-            | none => exact good_resumeAfterSol h7 cont
+            | none => exact good_resumeAfterSol h8 cont
             | some sr =>
               show Inv _ _ _ _ _
-              inv_of h7
+              inv_of h8
 theorem good_unsolWaitOnFragment {a : Acc} (h : Inv cfg0 db0 D A a) (resp : Resp) (isNull : Bool) :
     Good cfg0 db0 D A (unsolWaitOnFragment a resp isNull) := by
   unfold unsolWaitOnFragment
@@ -1281,7 +1285,7 @@ theorem step_good (env : OEnv) (s : OState) (i : OInput) : StepOk s i (Outstatio
     with_reducible apply stepOk_ite
     · exact hs'
     · refine ⟨_, ?_, rfl⟩
-      refine good_settle 8 (good_runPass _ ⟨rfl, .refl, by simp, fun f hf => ?_, fun _ => by simp⟩)
+      refine good_settle 8 (good_runPass _ ⟨rfl, .reset _ .refl, by simp, fun f hf => ?_, fun _ => by simp⟩)
       cases hf
 
 /-- **No panic except D1 and a counter underflow of the database.**  If a step of the outstation model
